@@ -277,7 +277,8 @@ long mutexOwnerDepth(const void* mutex, int* owner) { M* m = findM(mutex, false)
 
 void run(const Config& c, void (*fn)(void*), void* arg, void (*onVerdict)(Verdict, const char*)) {
   g_trace = getenv("VSCHED_TRACE") != nullptr;
-  cfg = c; st = Stats(); rs = c.seed * 0x9E3779B97F4A7C15ull + 1; vclock = 0; g_onVerdict = onVerdict;
+  cfg = c; st = Stats(); rs = c.seed * 0x9E3779B97F4A7C15ull + 1; g_onVerdict = onVerdict;
+  vclock = (long long)(rnd() % 1000) * 1000000LL + (long long)(rnd() % 1000000);   // random phase within the second (deadline arithmetic has carries)
   nth = 0; nmx = ncv = nsm = 0; rrNext = 0; nlocs = 0;
   for (int i = 0; i < MAXT; ++i) th[i] = T();
   npreempt = (int)(rnd() % 4); for (int i = 0; i < npreempt; ++i) preemptAt[i] = (long)(rnd() % 400);
